@@ -302,6 +302,8 @@ def r13(ctx):
 
 
 def run(ctx):
+    import rules.C04 as _c04s
+    ctx.borrow(_c04s.r15, {'C04.R15': 'C02.R22'}, 'a request is reported as sent only after its own valid exchange: a request that stays current over a SYN is completed with the data of the next foreign telegram')
     import rules.common as _cm
     ctx.rule('C02.R21', "a value is compared with a constant in the domain of its own type: in the sources of this property every comparison of a variable, member, element or call result with an integer constant (==, !=) has the constant inside the value range of the operand's own integer type before promotion - a symbol held in a signed char never equals 0xA9/0xAA/0xFE, so the escape, SYN or broadcast test behind it is dead for exactly the symbols it exists for", minimum=60)
     _cm.compare_domain_rule(ctx, 'C02.R21', lambda f: f.relfile.startswith(('src/lib/ebus/protocol', 'src/lib/ebus/symbol.', 'src/lib/ebus/device')), 60)
